@@ -92,6 +92,8 @@ pub const SCRIPT_PROPS: [&str; 9] = ["C01", "C02", "C03", "C04", "C05", "C06", "
 pub struct Script {
     pub s: Sim,
     pub strict: bool,
+    /// a scripted step failed: the rest of the script is skipped, the prefix built so far is the seed
+    pub dead: bool,
 }
 
 impl Script {
@@ -102,13 +104,19 @@ impl Script {
         }
         s.fund(&p20("x"), 100_000);
         s.fund(&p32("c1"), 100_000);
-        Script { s, strict: true }
+        Script { s, strict: true, dead: false }
     }
     pub fn run(mut self, a: Act) -> Script {
+        if self.dead {
+            return self;
+        }
         let pre = self.s.clone();
         let ap = self.s.apply(&a);
         if self.strict && !ap.out.ok {
-            panic!("seed script step failed: {:?}: {:?} {:?}", a, ap.out.err, ap.out.panicked);
+            // the step is still judged below (a monitor may say that it had to succeed); the remaining
+            // script is skipped and the prefix reached so far serves as the seed
+            eprintln!("note: scripted seed step failed on this tree ({}: {:?} {:?}); the seed is truncated here", act_label(&a), ap.out.err, ap.out.panicked.as_ref().map(|p| p.lines().next().unwrap_or("").to_string()));
+            self.dead = true;
         }
         // the scripted prefix is judged by the same monitors as explored transitions
         let mut vs = mwsim::monitors::step_monitors(&SCRIPT_PROPS, &pre, &a, &ap, &self.s);
@@ -121,6 +129,9 @@ impl Script {
         self
     }
     pub fn with(mut self, f: impl FnOnce(&Sim) -> Act) -> Script {
+        if self.dead {
+            return self;
+        }
         let a = f(&self.s);
         self = self.run(a);
         self
